@@ -154,6 +154,12 @@ def check(run):
                 if d['equal_refl'] != ['1']: bad.append('equal() is not reflexive')
                 for x in d.get('subst_self', []):
                     if not x.endswith(' 1'): bad.append('substituting symbol %s by itself is not the identity' % x.split()[0])
+                for x in d.get('clone_rename_self', []):
+                    if not x.endswith(' 1'): bad.append('clone_deeper(s, s) with s = %s is not equal to the original' % x.split()[0])
+                for x in d.get('clone_rename_subst', []):
+                    if not x.endswith(' 1'): bad.append('clone_deeper(%s, %s) differs from substituting the identifier' % tuple(x.split()[:2]))
+                if d.get('clone_frame', ['1']) != ['1']: bad.append('clone_deeper(frame) over the frame that declares every symbol is not equal to the original')
+                if d.get('clone_second_frame', ['1']) != ['1']: bad.append('clone_deeper(empty frame, frame) is not equal to the original')
                 for x in d.get('subst_unchanged', []):
                     if not x.endswith(' 1'): bad.append('subst changed its receiver (%s)' % x.split()[0])
                 for x in d.get('subst_tree', []):
